@@ -12,62 +12,62 @@ package xmss
 //@ pred wotsOK(p) := p.n == 32 && ((p.w == 4 && p.logW == 2 && p.len1 == 128 && p.len2 == 5 && p.len == 133 && p.keySize == 4256) || (p.w == 16 && p.logW == 4 && p.len1 == 64 && p.len2 == 3 && p.len == 67 && p.keySize == 2144) || (p.w == 256 && p.logW == 8 && p.len1 == 32 && p.len2 == 2 && p.len == 34 && p.keySize == 1088))
 
 //@ func NewWOTSParams
-//@   names n:uint32 w:uint32 |  | logW:uint32 len1:uint32 len2:uint32 totalLen:uint32 keySize:uint32
+//@   names n:uint32 w:uint32 |  | logW:uint32 len1:uint32 len2:uint32 totalLen:uint32 keySize:uint32 | 
 //@   trusted "floating-point code (math.Log2/Ceil/Floor); the contract is the 3-point table for w in {4,16,256}, n = 32, decided exhaustively by running the real function (table back end)"
 //@   requires n == 32 && (w == 4 || w == 16 || w == 256)
 //@   ensures wotsOK(result) && result.w == w
 
 //@ func NewXMSSParams
-//@   names n:uint32 h:uint32 w:uint32 k:uint32 |  | 
+//@   names n:uint32 h:uint32 w:uint32 k:uint32 |  |  | 
 //@   inline
 //@ func calculateSignatureBaseSize
-//@   names keySize:uint32 |  | 
+//@   names keySize:uint32 |  |  | 
 //@   inline
 //@ func getSignatureSize
-//@   names params:*xmss.XMSSParams |  | signatureBaseSize:uint32
+//@   names params:*xmss.XMSSParams |  | signatureBaseSize:uint32 | 
 //@   inline
 
 // ---- descriptor.go ----
 
 //@ func NewQRLDescriptor
-//@   names height:uint8 hashFunction:xmss.HashFunction signatureType:common.SignatureType addrFormatType:common.AddrFormatType |  | 
+//@   names height:uint8 hashFunction:xmss.HashFunction signatureType:common.SignatureType addrFormatType:common.AddrFormatType |  |  | 
 //@   inline
 //@ func NewQRLDescriptorFromExtendedSeed
-//@   names extendedSeed:[51]uint8 |  | 
+//@   names extendedSeed:[51]uint8 |  |  | 
 //@   inline
 //@ func NewQRLDescriptorFromExtendedPK
-//@   names extendedPK:*[67]uint8 |  | 
+//@   names extendedPK:*[67]uint8 |  |  | 
 //@   inline
 //@ func LegacyQRLDescriptorFromExtendedPK
-//@   names extendedPK:*[67]uint8 |  | 
+//@   names extendedPK:*[67]uint8 |  |  | 
 //@   inline
 //@ func QRLDescriptor.GetHeight
-//@   names d:*xmss.QRLDescriptor |  | 
+//@   names d:*xmss.QRLDescriptor |  |  | 
 //@   inline
 //@ func QRLDescriptor.GetHashFunction
-//@   names d:*xmss.QRLDescriptor |  | 
+//@   names d:*xmss.QRLDescriptor |  |  | 
 //@   inline
 //@ func QRLDescriptor.GetSignatureType
-//@   names d:*xmss.QRLDescriptor |  | 
+//@   names d:*xmss.QRLDescriptor |  |  | 
 //@   inline
 //@ func QRLDescriptor.GetAddrFormatType
-//@   names d:*xmss.QRLDescriptor |  | 
+//@   names d:*xmss.QRLDescriptor |  |  | 
 //@   inline
 
 //@ func NewQRLDescriptorFromBytes
-//@   names descriptorBytes:[]uint8 |  | 
+//@   names descriptorBytes:[]uint8 |  |  | 
 //@   panics "Descriptor size should be 3 bytes" when len(descriptorBytes) != 3
 //@   ensures result.hashFunction == descriptorBytes[0] % 16 && result.signatureType == descriptorBytes[0] / 16
 //@   ensures result.height == 2 * (descriptorBytes[1] % 16) && result.addrFormatType == descriptorBytes[1] / 16
 
 //@ func LegacyQRLDescriptorFromBytes
-//@   names descriptorBytes:[]uint8 |  | 
+//@   names descriptorBytes:[]uint8 |  |  | 
 //@   panics "Descriptor size should be 3 bytes" when len(descriptorBytes) != 3
 //@   ensures result.hashFunction == descriptorBytes[0] % 16 && result.signatureType == descriptorBytes[0] / 16
 //@   ensures result.height == 2 * (descriptorBytes[1] % 16) && result.addrFormatType == descriptorBytes[1] / 16
 
 //@ func QRLDescriptor.GetBytes
-//@   names d:*xmss.QRLDescriptor |  | output:[3]uint8
+//@   names d:*xmss.QRLDescriptor |  | output:[3]uint8 | 
 //@   ensures result[0] == (d.signatureType % 16) * 16 + d.hashFunction % 16
 //@   ensures result[1] == (d.addrFormatType % 16) * 16 + (d.height / 2) % 16
 //@   ensures result[2] == 0
@@ -75,14 +75,14 @@ package xmss
 // ---- addresses ----
 
 //@ func IsValidXMSSAddress
-//@   names address:[20]uint8 |  | d:*xmss.QRLDescriptor
+//@   names address:[20]uint8 |  | d:*xmss.QRLDescriptor | 
 //@   props C14 C11 C15 C16 C09
 //@   ensures[C11,C16,C09] result <==> (address[0] / 16 == 0 && address[1] / 16 == 0)
 
 // ---- hash.go ----
 
 //@ func coreHash
-//@   names hashFunction:xmss.HashFunction out:[]uint8 typeValue:uint32 key:[]uint8 keyLen:uint32 in:[]uint8 inLen:uint32 n:uint32 |  | buf:[]uint8 i:uint32@1i i:uint32@2i
+//@   names hashFunction:xmss.HashFunction out:[]uint8 typeValue:uint32 key:[]uint8 keyLen:uint32 in:[]uint8 inLen:uint32 n:uint32 |  | buf:[]uint8 i:uint32@1i i:uint32@2i | 1b4e5510 f7ef962f
 //@   props C06
 //@   requires n == 32 && keyLen <= 96 && len(key) >= keyLen && len(in) >= inLen && inLen + n + keyLen <= 4294967295
 //@   exit[XF] len(buf) == 32 + keyLen + inLen && forall d :: 0 <= d && d < 32 + keyLen + inLen ==> buf[d] == spec.corein(typeValue, spec.sub(key, keyLen), keyLen, spec.sub(in, inLen), inLen)[d]
@@ -96,7 +96,7 @@ package xmss
 //@   loop 2 invariant[XF] (forall d :: 0 <= d && d < 32 ==> buf[d] == spec.byte32(typeValue, 31-d)) && (forall k_ :: 0 <= k_ && k_ < keyLen ==> buf[32+k_] == key[k_]) && forall k_ :: 0 <= k_ && k_ < i ==> buf[32+keyLen+k_] == in[k_]
 
 //@ func prf
-//@   names hashFunction:xmss.HashFunction out:[]uint8 in:[]uint8 key:[]uint8 keyLen:uint32 |  | 
+//@   names hashFunction:xmss.HashFunction out:[]uint8 in:[]uint8 key:[]uint8 keyLen:uint32 |  |  | 
 //@   props C06
 //@   requires keyLen == 32 && len(key) >= 32 && len(in) >= 32
 //@   ensures[XF] hashFunction <= 2 ==> forall q :: 0 <= q && q < len(out) && q < 32 ==> out[q] == spec.prfArr(hashFunction, spec.sub(key, 32), spec.sub(in, 32))[q]
@@ -105,7 +105,7 @@ package xmss
 //@ pred prfAddr(hf, pubSeed, a, km) := spec.prfArr(hf, spec.sub(pubSeed, 32), spec.addrBytes(store(arr(a), 7, km)))
 
 //@ func hashH
-//@   names hashFunction:xmss.HashFunction out:[]uint8 in:[]uint8 pubSeed:[]uint8 addr:*[8]uint32 n:uint32 |  | buf:[]uint8 key:[]uint8 bitMask:[]uint8 byteAddr:[32]uint8 i:uint32@1i
+//@   names hashFunction:xmss.HashFunction out:[]uint8 in:[]uint8 pubSeed:[]uint8 addr:*[8]uint32 n:uint32 |  | buf:[]uint8 key:[]uint8 bitMask:[]uint8 byteAddr:[32]uint8 i:uint32@1i | 70ccb20e
 //@   props C06
 //@   alias in out
 //@   requires n == 32 && len(in) >= 64 && len(pubSeed) >= 32
@@ -119,7 +119,7 @@ package xmss
 //@   loop 1 invariant[XF] forall d :: 0 <= d && d < i ==> buf[d] == spec.bxor(in[d], bitMask[d])
 
 //@ func hashF
-//@   names hashFunction:xmss.HashFunction out:[]uint8 in:[]uint8 pubSeed:[]uint8 addr:*[8]uint32 n:uint32 |  | buf:[]uint8 key:[]uint8 bitMask:[]uint8 byteAddr:[32]uint8 i:uint32@1i
+//@   names hashFunction:xmss.HashFunction out:[]uint8 in:[]uint8 pubSeed:[]uint8 addr:*[8]uint32 n:uint32 |  | buf:[]uint8 key:[]uint8 bitMask:[]uint8 byteAddr:[32]uint8 i:uint32@1i | 2d9d447b
 //@   props C06
 //@   alias in out
 //@   requires n == 32 && len(in) >= 32 && len(pubSeed) >= 32
@@ -133,7 +133,7 @@ package xmss
 //@   loop 1 invariant[XF] forall d :: 0 <= d && d < i ==> buf[d] == spec.bxor(in[d], bitMask[d])
 
 //@ func hMsg
-//@   names hashFunction:xmss.HashFunction out:[]uint8 in:[]uint8 key:[]uint8 n:uint32 |  | 
+//@   names hashFunction:xmss.HashFunction out:[]uint8 in:[]uint8 key:[]uint8 n:uint32 |  |  | 
 //@   props C06
 //@   requires n == 32 && len(key) <= 4096
 //@   ensures iserr(result) <==> (len(key) != 3*n || len(in) + n + len(key) > 4294967295)
@@ -148,7 +148,7 @@ package xmss
 //@ lemma xmss.L_xorArr_cong32[XF] : forall X1:arr, X2:arr, M:arr :: (forall d_ :: 0 <= d_ && d_ < 32 ==> X1[d_] == X2[d_]) ==> spec.xorArr(X1, M, 32) == spec.xorArr(X2, M, 32)
 //@ lemma xmss.L_randF_cong[XF] uses xmss.L_addrBytes_cong,xmss.L_xorArr_cong32 : forall hf, PS:arr, A1:arr, A2:arr, X1:arr, X2:arr :: (forall k_ :: 0 <= k_ && k_ < 7 ==> A1[k_] == A2[k_]) && (forall d_ :: 0 <= d_ && d_ < 32 ==> X1[d_] == X2[d_]) ==> spec.randF(hf, PS, A1, X1) == spec.randF(hf, PS, A2, X2)
 //@ func genChain
-//@   names hashFunction:xmss.HashFunction out:[]uint8 in:[]uint8 start:uint32 steps:uint32 params:*xmss.WOTSParams pubSeed:[]uint8 addr:*[8]uint32 |  | j:uint32@1i i:uint32@2i
+//@   names hashFunction:xmss.HashFunction out:[]uint8 in:[]uint8 start:uint32 steps:uint32 params:*xmss.WOTSParams pubSeed:[]uint8 addr:*[8]uint32 |  | j:uint32@1i i:uint32@2i | 6b69f96b 1595b12e
 //@   alias in out same
 //@   use xmss.L_randF_cong
 //@   uselate xmss.L_chain_cong2
@@ -167,7 +167,7 @@ package xmss
 //@   loop 2 decreases params.w - i
 
 //@ func CalcBaseW
-//@   names output:[]uint8 outputLen:uint32 input:[]uint8 params:*xmss.WOTSParams |  | in:int out:int total:uint32 bits:uint32 consumed:uint32@1i
+//@   names output:[]uint8 outputLen:uint32 input:[]uint8 params:*xmss.WOTSParams |  | in:int out:int total:uint32 bits:uint32 consumed:uint32@1i | 71e9c67e
 //@   requires wotsOK(params) && len(output) >= outputLen && 8*len(input) >= outputLen*params.logW
 //@   ensures forall k_ :: 0 <= k_ && k_ < outputLen ==> output[k_] <= params.w - 1
 //@   ensures[XF] forall k_ :: 0 <= k_ && k_ < outputLen ==> output[k_] == spec.bwdig(input, k_, params.logW)
@@ -202,7 +202,7 @@ package xmss
 //@ pred wpkNode(hf, pubSeed, A, sig, msg, p, i) := spec.wpkNode(hf, spec.sub(pubSeed, 32), A, sig, msg, p.logW, p.w, p.len1, wShift(p), wBytes(p), i)
 //@ pred wpkByte(hf, pubSeed, A, sig, msg, p, pp) := wpkNode(hf, pubSeed, A, sig, msg, p, pp/32)[pp%32]
 //@ func wotsPKFromSig
-//@   names hashfunction:xmss.HashFunction pk:[]uint8 sig:[]uint8 msg:[]uint8 wotsParams:*xmss.WOTSParams pubSeed:[]uint8 addr:*[8]uint32 |  | XMSSWOTSLEN:uint32 XMSSWOTSLEN1:uint32 XMSSWOTSLEN2:uint32 XMSSWOTSLOGW:uint32 XMSSWOTSW:uint32 XMSSN:uint32 baseW:[]uint8 cSum:uint32 cSumBytes:[]uint8 cSumBaseW:[]uint8 i:uint32@1i i:uint32@2i i:uint32@3i offset:uint32
+//@   names hashfunction:xmss.HashFunction pk:[]uint8 sig:[]uint8 msg:[]uint8 wotsParams:*xmss.WOTSParams pubSeed:[]uint8 addr:*[8]uint32 |  | XMSSWOTSLEN:uint32 XMSSWOTSLEN1:uint32 XMSSWOTSLEN2:uint32 XMSSWOTSLOGW:uint32 XMSSWOTSW:uint32 XMSSN:uint32 baseW:[]uint8 cSum:uint32 cSumBytes:[]uint8 cSumBaseW:[]uint8 i:uint32@1i i:uint32@2i i:uint32@3i offset:uint32 | 0ec730cf 5322ee08 f8425b1b
 //@   use xmss.L_chain_cong2
 //@   uselate xmss.L_wpkNode_congA
 //@   hide spec.chain
@@ -242,7 +242,7 @@ package xmss
 //@ pred ltab(len, t, l) := (len == 67 && ((t == 0 && l == 67) || (t == 1 && l == 34) || (t == 2 && l == 17) || (t == 3 && l == 9) || (t == 4 && l == 5) || (t == 5 && l == 3) || (t == 6 && l == 2) || (t == 7 && l == 1))) || (len == 133 && ((t == 0 && l == 133) || (t == 1 && l == 67) || (t == 2 && l == 34) || (t == 3 && l == 17) || (t == 4 && l == 9) || (t == 5 && l == 5) || (t == 6 && l == 3) || (t == 7 && l == 2) || (t == 8 && l == 1))) || (len == 34 && ((t == 0 && l == 34) || (t == 1 && l == 17) || (t == 2 && l == 9) || (t == 3 && l == 5) || (t == 4 && l == 3) || (t == 5 && l == 2) || (t == 6 && l == 1)))
 //@ pred ltreeT(len) := ite(len == 67, 7, ite(len == 133, 8, 6))
 //@ func lTree
-//@   names hashFunction:xmss.HashFunction params:*xmss.WOTSParams leaf:[]uint8 wotsPK:[]uint8 pubSeed:[]uint8 addr:*[8]uint32 |  | l:uint32 n:uint32 height:uint32 bound:uint32 i:uint32@2i outStartOffset:uint32 inStartOffset:uint32 destStartOffset:uint32 srcStartOffset:uint32
+//@   names hashFunction:xmss.HashFunction params:*xmss.WOTSParams leaf:[]uint8 wotsPK:[]uint8 pubSeed:[]uint8 addr:*[8]uint32 |  | l:uint32 n:uint32 height:uint32 bound:uint32 i:uint32@2i outStartOffset:uint32 inStartOffset:uint32 destStartOffset:uint32 srcStartOffset:uint32 | 2e38e16e 1274761d
 //@   nooverflow
 //@   use xmss.L_randHash_cong
 //@   uselate xmss.L_lnode_cong2
@@ -272,7 +272,7 @@ package xmss
 //@ pred bufAuth(buffer, lo, authpath, k) := forall q_ :: 0 <= q_ && q_ < 32 ==> buffer[lo+q_] == authpath[32*k+q_]
 
 //@ func validateAuthPath
-//@   names hashFunc:xmss.HashFunction root:[]uint8 leaf:[]uint8 leafIdx:uint32 authpath:[]uint8 n:uint32 h:uint32 pub_seed:[]uint8 addr:*[8]uint32 |  | buffer:[]uint8 j:uint32@1i j:uint32@2i j:uint32@3i j:uint32@4i authPathOffset:uint32 i:uint32@5i j:uint32@6i j:uint32@7i
+//@   names hashFunc:xmss.HashFunction root:[]uint8 leaf:[]uint8 leafIdx:uint32 authpath:[]uint8 n:uint32 h:uint32 pub_seed:[]uint8 addr:*[8]uint32 |  | buffer:[]uint8 j:uint32@1i j:uint32@2i j:uint32@3i j:uint32@4i authPathOffset:uint32 i:uint32@5i j:uint32@6i j:uint32@7i | 9fad4850 7a168dd4 a939f01f 82764f5e 7713306c 75e64740 d0b65a53
 //@   props C04 C01 C06
 //@   pure
 //@   use xmss.L_randHash_cong
@@ -308,7 +308,7 @@ package xmss
 //@ pred vLeaf(hf, p, msg, sigMsg, pk) := spec.lnode(hf, spec.sub(pk[32:], 32), spec.addrTI(1, vIdx(sigMsg)), vWpk(hf, p, msg, sigMsg, pk), 0, p.len, ltreeT(p.len), 0)
 //@ pred vRoot(hf, p, msg, sigMsg, pk, h) := spec.foldTop(hf, spec.sub(pk[32:], 32), spec.addrTI(2, 0), vLeaf(hf, p, msg, sigMsg, pk), vIdx(sigMsg), sigMsg[36 + p.keySize:], h)
 //@ func xmssVerifySig
-//@   names hashFunction:xmss.HashFunction wotsParams:*xmss.WOTSParams msg:[]uint8 sigMsg:[]uint8 pk:[]uint8 h:uint32 |  | sigMsgOffset:uint32 n:uint32 wotsPK:[]uint8 pkHash:[]uint8 root:[]uint8 hashKey:[]uint8 pubSeed:[]uint8 otsAddr:[8]uint32 lTreeAddr:[8]uint32 nodeAddr:[8]uint32 idx:uint32 msgHash:[]uint8 err:error i:uint32@1i
+//@   names hashFunction:xmss.HashFunction wotsParams:*xmss.WOTSParams msg:[]uint8 sigMsg:[]uint8 pk:[]uint8 h:uint32 |  | sigMsgOffset:uint32 n:uint32 wotsPK:[]uint8 pkHash:[]uint8 root:[]uint8 hashKey:[]uint8 pubSeed:[]uint8 otsAddr:[8]uint32 lTreeAddr:[8]uint32 nodeAddr:[8]uint32 idx:uint32 msgHash:[]uint8 err:error i:uint32@1i | 02278301
 //@   props C04
 //@   pure
 //@   hide spec.chain
@@ -349,13 +349,13 @@ package xmss
 //@   loop 1 invariant[C04] forall k_ :: 0 <= k_ && k_ < i ==> root[k_] == pk[k_]
 
 //@ func getHeightFromSigSize
-//@   names sigSize:uint32 wotsParamW:uint32 |  | wotsParam:*xmss.WOTSParams signatureBaseSize:uint32
+//@   names sigSize:uint32 wotsParamW:uint32 |  | wotsParam:*xmss.WOTSParams signatureBaseSize:uint32 | 
 //@   requires wotsParamW == 4 || wotsParamW == 16 || wotsParamW == 256
 //@   panics "Invalid signature size" when sigSize < 36 + spec.wotsKeySize(wotsParamW) || (sigSize - 4) % 32 != 0
 //@   ensures result == (sigSize - 36 - spec.wotsKeySize(wotsParamW)) / 32
 
 //@ func VerifyWithCustomWOTSParamW
-//@   names message:[]uint8 signature:[]uint8 extendedPK:[67]uint8 wotsParamW:uint32 | result:bool | wotsParam:*xmss.WOTSParams signatureBaseSize:uint32 desc:*xmss.QRLDescriptor height:uint32 hashFunction:xmss.HashFunction k:uint32 w:uint32 n:uint32 params:*xmss.XMSSParams tmp:[]uint8
+//@   names message:[]uint8 signature:[]uint8 extendedPK:[67]uint8 wotsParamW:uint32 | result:bool | wotsParam:*xmss.WOTSParams signatureBaseSize:uint32 desc:*xmss.QRLDescriptor height:uint32 hashFunction:xmss.HashFunction k:uint32 w:uint32 n:uint32 params:*xmss.XMSSParams tmp:[]uint8 | 
 //@   props C14 C04 C06 C15 C16
 //@   pure
 //@   requires wotsParamW == 4 || wotsParamW == 16 || wotsParamW == 256
@@ -369,7 +369,7 @@ package xmss
 //@   panics "For BDS traversal, H - K must be even, with H > K >= 2!"
 
 //@ func Verify
-//@   names message:[]uint8 signature:[]uint8 extendedPK:[67]uint8 | result:bool | 
+//@   names message:[]uint8 signature:[]uint8 extendedPK:[67]uint8 | result:bool |  | 
 //@   props C14 C04 C06 C15 C16
 //@   pure
 //@   ensures[C06,C04] result == purefn("xmss.VerifyWithCustomWOTSParamW", "r0", message, signature, extendedPK, 16)
@@ -379,14 +379,14 @@ package xmss
 //@   panics "For BDS traversal, H - K must be even, with H > K >= 2!"
 
 //@ func GetXMSSAddressFromPK
-//@   names ePK:[67]uint8 |  | desc:*xmss.QRLDescriptor address:[20]uint8 descBytes:[3]uint8 hashedKey:[32]uint8
+//@   names ePK:[67]uint8 |  | desc:*xmss.QRLDescriptor address:[20]uint8 descBytes:[3]uint8 hashedKey:[32]uint8 | 
 //@   props C14 C11 C15 C16 C09
 //@   panics "Address format type not supported" when ePK[1] / 16 != 0
 //@   ensures[C11,C16,C09] result[0] == ePK[0] && result[1] == ePK[1] && result[2] == 0
 //@   ensures[C11,C16,C09] forall q :: 0 <= q && q < 17 ==> result[3+q] == spec.shake(256, spec.sub(ePK[0:], 67), 67, 15+q)
 
 //@ func GetLegacyXMSSAddressFromPK
-//@   names ePK:[67]uint8 |  | desc:*xmss.QRLDescriptor address:[39]uint8 addressOffset:int descBytes:[3]uint8 i:int@1i hashedKey:[32]uint8 i:int@2i hashedKey2:[32]uint8 hashedKey2Offset:int i:int@3i
+//@   names ePK:[67]uint8 |  | desc:*xmss.QRLDescriptor address:[39]uint8 addressOffset:int descBytes:[3]uint8 i:int@1i hashedKey:[32]uint8 i:int@2i hashedKey2:[32]uint8 hashedKey2Offset:int i:int@3i | 835b8283 0bb49e63 0fc493fe
 //@   props C14 C11 C15 C09
 //@   panics "Address format type not supported" when ePK[1] / 16 != 0
 //@   ensures[C11,C09] result[0] == ePK[0] && result[1] == ePK[1] && result[2] == 0
@@ -399,7 +399,7 @@ package xmss
 //@   loop 3 invariant forall k_ :: 0 <= k_ && k_ < i ==> address[35+k_] == hashedKey2[28+k_]
 
 //@ func IsValidLegacyXMSSAddress
-//@   names address:[39]uint8 |  | d:*xmss.QRLDescriptor hashedKey:[32]uint8
+//@   names address:[39]uint8 |  | d:*xmss.QRLDescriptor hashedKey:[32]uint8 | 
 //@   props C14 C11 C15
 //@   ensures[C11] result <==> (address[1] / 16 == 0 && forall q :: 0 <= q && q < 4 ==> address[35+q] == spec.sha256(spec.sub(address[0:], 35), 35, 28+q))
 
@@ -419,13 +419,13 @@ package xmss
 //@ aset bdsAll := $.stack, $.stackOffset, $.stackLevels, $.auth, $.keep, $.treeHash, $.retain, $.nextLeaf
 
 //@ func NewBDSState
-//@   names height:uint32 n:uint32 k:uint32 |  | stackOffset:uint32 stack:[]uint8 stackLevels:[]uint8 auth:[]uint8 keep:[]uint8 treeHash:[]*xmss.TreeHashInst retain:[]uint8 i:uint32@1i
+//@   names height:uint32 n:uint32 k:uint32 |  | stackOffset:uint32 stack:[]uint8 stackLevels:[]uint8 auth:[]uint8 keep:[]uint8 treeHash:[]*xmss.TreeHashInst retain:[]uint8 i:uint32@1i | c5dd2e82
 //@   trusted "appends freshly allocated *TreeHashInst to a slice of pointers (outside the subset); contract = shapes of the allocated buffers, confirmed by the label run which executes the real function for every height"
 //@   requires 4 <= height && height <= 30 && n == 32 && k == 2
 //@   ensures bdsShape(result, height)
 
 //@ func treeHashSetup
-//@   names hashFunction:xmss.HashFunction node:[]uint8 index:uint32 bdsState:*xmss.BDSState skSeed:[]uint8 xmssParams:*xmss.XMSSParams pubSeed:[]uint8 addr:[]uint32 |  | n:uint32 h:uint32 k:uint32 otsAddr:[8]uint32 lTreeAddr:[8]uint32 nodeAddr:[8]uint32 lastNode:uint32 bound:uint32 stack:[]uint8 stackLevels:[]uint32 stackOffset:uint32 nodeH:uint32 i:uint32@1i i:uint32 authStart:uint32 stackStart:uint32 stackStart:uint32 retainStart:uint32 stackStart:uint32 stackStart:uint32
+//@   names hashFunction:xmss.HashFunction node:[]uint8 index:uint32 bdsState:*xmss.BDSState skSeed:[]uint8 xmssParams:*xmss.XMSSParams pubSeed:[]uint8 addr:[]uint32 |  | n:uint32 h:uint32 k:uint32 otsAddr:[8]uint32 lTreeAddr:[8]uint32 nodeAddr:[8]uint32 lastNode:uint32 bound:uint32 stack:[]uint8 stackLevels:[]uint32 stackOffset:uint32 nodeH:uint32 i:uint32@1i i:uint32 authStart:uint32 stackStart:uint32 stackStart:uint32 retainStart:uint32 stackStart:uint32 stackStart:uint32 | 66afe6f4 f2bff18f a728b290
 //@   reads addr[0:3]
 //@   trusted "BDS traversal internals: behaviour decided by the bounded label run (C01); frame and purity by the effects back end"
 //@   pure
@@ -433,7 +433,7 @@ package xmss
 //@   assigns node[0:32], bdsAll(bdsState)
 
 //@ func bdsRound
-//@   names hashFunction:xmss.HashFunction bdsState:*xmss.BDSState leafIdx:uint32 skSeed:[]uint8 params:*xmss.XMSSParams pubSeed:[]uint8 addr:*[8]uint32 |  | n:uint32 h:uint32 k:uint32 tau:uint32 buf:[]uint8 otsAddr:[8]uint32 lTreeAddr:[8]uint32 nodeAddr:[8]uint32 i:uint32@1i srcOffset:uint32 destOffset:uint32 srcOffset:uint32 i:uint32@2i offset:uint32 rowIdx:uint32 srcOffset:uint32 compareValue:uint32 i:uint32@3i startIdx:uint32
+//@   names hashFunction:xmss.HashFunction bdsState:*xmss.BDSState leafIdx:uint32 skSeed:[]uint8 params:*xmss.XMSSParams pubSeed:[]uint8 addr:*[8]uint32 |  | n:uint32 h:uint32 k:uint32 tau:uint32 buf:[]uint8 otsAddr:[8]uint32 lTreeAddr:[8]uint32 nodeAddr:[8]uint32 i:uint32@1i srcOffset:uint32 destOffset:uint32 srcOffset:uint32 i:uint32@2i offset:uint32 rowIdx:uint32 srcOffset:uint32 compareValue:uint32 i:uint32@3i startIdx:uint32 | 963150e5 56d4efb2 ea1540f3
 //@   reads addr[0:3]
 //@   trusted "BDS traversal internals: behaviour decided by the bounded label run (C01); frame and purity by the effects back end"
 //@   pure
@@ -441,7 +441,7 @@ package xmss
 //@   assigns bdsAll(bdsState)
 
 //@ func bdsTreeHashUpdate
-//@   names hashFunction:xmss.HashFunction bdsState:*xmss.BDSState updates:uint32 skSeed:[]uint8 params:*xmss.XMSSParams pubSeed:[]uint8 addr:*[8]uint32 |  | h:uint32 k:uint32 used:uint32 lMin:uint32 level:uint32 low:uint32 j:uint32@1i i:uint32@2i
+//@   names hashFunction:xmss.HashFunction bdsState:*xmss.BDSState updates:uint32 skSeed:[]uint8 params:*xmss.XMSSParams pubSeed:[]uint8 addr:*[8]uint32 |  | h:uint32 k:uint32 used:uint32 lMin:uint32 level:uint32 low:uint32 j:uint32@1i i:uint32@2i | 15507d6c 61bea1de
 //@   reads addr[0:3]
 //@   trusted "BDS traversal internals: behaviour decided by the bounded label run (C01); frame and purity by the effects back end"
 //@   pure
@@ -449,7 +449,7 @@ package xmss
 //@   assigns bdsAll(bdsState)
 
 //@ func getSeed
-//@   names hashFunction:xmss.HashFunction seed:[]uint8 skSeed:[]uint8 n:uint32 addr:*[8]uint32 |  | bytes:[32]uint8
+//@   names hashFunction:xmss.HashFunction seed:[]uint8 skSeed:[]uint8 n:uint32 addr:*[8]uint32 |  | bytes:[32]uint8 | 
 //@   props C06
 //@   requires n == 32 && len(skSeed) >= 32
 //@   ensures[XF] hashFunction <= 2 ==> forall q :: 0 <= q && q < len(seed) && q < 32 ==> seed[q] == spec.prfArr(hashFunction, spec.sub(skSeed, 32), spec.addrBytes(store(store(store(arr(old(addr)), 5, 0), 6, 0), 7, 0)))[q]
@@ -457,7 +457,7 @@ package xmss
 //@   assigns seed, *addr
 
 //@ func expandSeed
-//@   names hashFunction:xmss.HashFunction outSeeds:[]uint8 inSeeds:[]uint8 n:uint32 len:uint32 |  | ctr:[32]uint8 i:uint32@1i
+//@   names hashFunction:xmss.HashFunction outSeeds:[]uint8 inSeeds:[]uint8 n:uint32 len:uint32 |  | ctr:[32]uint8 i:uint32@1i | f3de8f7a
 //@   props C06
 //@   requires n == 32 && len <= 133 && len(outSeeds) >= len*n && len(inSeeds) >= 32
 //@   ensures[XF] hashFunction <= 2 ==> forall i_, q :: 0 <= i_ && i_ < len && 0 <= q && q < 32 ==> outSeeds[32*i_+q] == spec.prfArr(hashFunction, spec.sub(inSeeds, 32), spec.toByte32(i_))[q]
@@ -479,7 +479,7 @@ package xmss
 //@ lemma xmss.L_wots_id[XF] uses xmss.L_wots_idA,xmss.L_wots_idB,-spec.chain,-spec.wdig,-spec.wsigNode,-spec.wpkNode,-spec.wgenNode : forall hf, PS:arr, A:arr, SK:arr, sko, SG:arr, so, M:arr, mo, lw, w, len1, sh, nb, i, q_ :: 0 <= spec.wdig(M, mo, i, lw, w, len1, sh, nb) && spec.wdig(M, mo, i, lw, w, len1, sh, nb) <= w - 1 && (forall d_ :: 0 <= d_ && d_ < 32 ==> SG[so + 32*i + d_] == spec.wsigNode(hf, PS, A, SK, sko, M, mo, lw, w, len1, sh, nb, i)[d_]) && 0 <= q_ && q_ < 32 ==> spec.wpkNode(hf, PS, A, SG, so, M, mo, lw, w, len1, sh, nb, i)[q_] == spec.wgenNode(hf, PS, A, SK, sko, w, i)[q_]
 //@ pred wsigN(hf, pubSeed, A, sk, msg, p, i) := spec.wsigNode(hf, spec.sub(pubSeed, 32), A, sk, msg, p.logW, p.w, p.len1, wShift(p), wBytes(p), i)
 //@ func wotsSign
-//@   names hashFunction:xmss.HashFunction sig:[]uint8 msg:[]uint8 sk:[]uint8 params:*xmss.WOTSParams pubSeed:[]uint8 addr:*[8]uint32 |  | baseW:[]uint8 csum:uint32 i:uint32@1i len2Bytes:uint32 cSumBytes:[]uint8 cSumBaseW:[]uint8 i:uint32@2i i:uint32@3i offset:uint32
+//@   names hashFunction:xmss.HashFunction sig:[]uint8 msg:[]uint8 sk:[]uint8 params:*xmss.WOTSParams pubSeed:[]uint8 addr:*[8]uint32 |  | baseW:[]uint8 csum:uint32 i:uint32@1i len2Bytes:uint32 cSumBytes:[]uint8 cSumBaseW:[]uint8 i:uint32@2i i:uint32@3i offset:uint32 | d1a641e7 4ad0e1e6 f3a2b9e1
 //@   use xmss.L_chain_cong2
 //@   hide spec.chain
 //@   hide spec.bwdig
@@ -508,7 +508,7 @@ package xmss
 
 //@ pred wgenN(hf, pubSeed, A, sk, p, i) := spec.wgenNode(hf, spec.sub(pubSeed, 32), A, sk, p.w, i)
 //@ func wOTSPKGen
-//@   names hashFunction:xmss.HashFunction pk:[]uint8 sk:[]uint8 wOTSParams:*xmss.WOTSParams pubSeed:[]uint8 addr:*[8]uint32 |  | i:uint32@1i pkStartOffset:uint32
+//@   names hashFunction:xmss.HashFunction pk:[]uint8 sk:[]uint8 wOTSParams:*xmss.WOTSParams pubSeed:[]uint8 addr:*[8]uint32 |  | i:uint32@1i pkStartOffset:uint32 | 00f1381d
 //@   use xmss.L_chain_cong
 //@   hide spec.chain
 //@   uselate xmss.L_wgenNode_congA
@@ -529,7 +529,7 @@ package xmss
 //@ pred otsSeedOf(hf, skSeed, A) := spec.prfArr(hf, spec.sub(skSeed, 32), spec.addrBytes(store(store(store(A, 5, 0), 6, 0), 7, 0)))
 //@ pred leafOf(hf, p, skSeed, pubSeed, LA, OA) := spec.lnode(hf, spec.sub(pubSeed, 32), LA, spec.wgenArr(hf, spec.sub(pubSeed, 32), OA, otsSeedOf(hf, skSeed, OA), 0, p.w), 0, p.len, ltreeT(p.len), 0)
 //@ func genLeafWOTS
-//@   names hashFunction:xmss.HashFunction leaf:[]uint8 skSeed:[]uint8 xmssParams:*xmss.XMSSParams pubSeed:[]uint8 lTreeAddr:*[8]uint32 otsAddr:*[8]uint32 |  | seed:[]uint8 pk:[]uint8
+//@   names hashFunction:xmss.HashFunction leaf:[]uint8 skSeed:[]uint8 xmssParams:*xmss.XMSSParams pubSeed:[]uint8 lTreeAddr:*[8]uint32 otsAddr:*[8]uint32 |  | seed:[]uint8 pk:[]uint8 | 
 //@   use xmss.L_wgenArr_cong
 //@   use xmss.L_lnode_cong2
 //@   use xmss.L_llen_table
@@ -546,7 +546,7 @@ package xmss
 //@   after xmss.lTree 1 assert[XF] spec.llenS(xmssParams.wotsParams.len, ltreeT(xmssParams.wotsParams.len)) == 1 && spec.llen(xmssParams.wotsParams.len, ltreeT(xmssParams.wotsParams.len)) == 1
 
 //@ func XMSSFastGenKeyPair
-//@   names hashFunction:xmss.HashFunction xmssParams:*xmss.XMSSParams pk:[]uint8 sk:[]uint8 bdsState:*xmss.BDSState seed:[48]uint8 |  | n:uint32 randombits:[]uint8 rnd:int pks:uint32 addr:[]uint32
+//@   names hashFunction:xmss.HashFunction xmssParams:*xmss.XMSSParams pk:[]uint8 sk:[]uint8 bdsState:*xmss.BDSState seed:[48]uint8 |  | n:uint32 randombits:[]uint8 rnd:int pks:uint32 addr:[]uint32 | 
 //@   props C02 C08 C09 C06
 //@   requires paramsOK(xmssParams) && len(pk) == 64 && len(sk) == 132 && bdsShape(bdsState, xmssParams.h)
 //@   ensures idxOf(sk) == 0
@@ -555,7 +555,7 @@ package xmss
 //@   assigns pk, sk, bdsAll(bdsState)
 
 //@ func xmssFastUpdate
-//@   names hashFunction:xmss.HashFunction params:*xmss.XMSSParams sk:[]uint8 bdsState:*xmss.BDSState newIdx:uint32 |  | numElems:uint32 currentIdx:uint32 skSeed:[]uint8 startOffset:int pubSeed:[]uint8 otsAddr:[8]uint32 j:uint32@1i
+//@   names hashFunction:xmss.HashFunction params:*xmss.XMSSParams sk:[]uint8 bdsState:*xmss.BDSState newIdx:uint32 |  | numElems:uint32 currentIdx:uint32 skSeed:[]uint8 startOffset:int pubSeed:[]uint8 otsAddr:[8]uint32 j:uint32@1i | e3303054
 //@   props C02 C08
 //@   requires paramsOK(params) && len(sk) == 132 && bdsShape(bdsState, params.h)
 //@   panics "index too high" when newIdx >= spec.pow2(params.h)
@@ -572,7 +572,7 @@ package xmss
 //@   exit[C08,C02] result == 0 ==> ncalls("xmss.bdsRound", 1) == newIdx - old(idxOf(sk)) && ncalls("xmss.bdsTreeHashUpdate", 1) == newIdx - old(idxOf(sk))
 
 //@ func xmssFastSignMessage
-//@   names hashFunction:xmss.HashFunction params:*xmss.XMSSParams sk:[]uint8 bdsState:*xmss.BDSState message:[]uint8 |  | n:uint32 idx:uint32 skSeed:[]uint8 skPRF:[]uint8 pubSeed:[]uint8 idxBytes32:[32]uint8 hashKey:[]uint8 R:[]uint8 otsAddr:[8]uint32 msgHash:[]uint8 err:error sigMsgLen:uint32 sigMsg:[]uint8 i:uint32@1i otsSeed:[]uint8
+//@   names hashFunction:xmss.HashFunction params:*xmss.XMSSParams sk:[]uint8 bdsState:*xmss.BDSState message:[]uint8 |  | n:uint32 idx:uint32 skSeed:[]uint8 skPRF:[]uint8 pubSeed:[]uint8 idxBytes32:[32]uint8 hashKey:[]uint8 R:[]uint8 otsAddr:[8]uint32 msgHash:[]uint8 err:error sigMsgLen:uint32 sigMsg:[]uint8 i:uint32@1i otsSeed:[]uint8 | 3447619e
 //@   props C02 C08 C01 C06
 //@   requires paramsOK(params) && len(sk) == 132 && bdsShape(bdsState, params.h) && idxOf(sk) < spec.pow2(params.h)
 //@   ensures idxOf(sk) == old(idxOf(sk)) + 1
@@ -592,7 +592,7 @@ package xmss
 //@   loop 1 invariant[C06,C01] forall k_ :: 0 <= k_ && k_ < i ==> sigMsg[4+k_] == R[k_]
 
 //@ func initializeTree
-//@   names desc:*xmss.QRLDescriptor seed:[48]uint8 |  | height:uint32 hashFunction:xmss.HashFunction sk:[]uint8 pk:[]uint8 k:uint32 w:uint32 n:uint32 xmssParams:*xmss.XMSSParams bdsState:*xmss.BDSState
+//@   names desc:*xmss.QRLDescriptor seed:[48]uint8 |  | height:uint32 hashFunction:xmss.HashFunction sk:[]uint8 pk:[]uint8 k:uint32 w:uint32 n:uint32 xmssParams:*xmss.XMSSParams bdsState:*xmss.BDSState | 
 //@   props C02 C08 C09
 //@   pure
 //@   requires desc.height <= 30
@@ -600,7 +600,7 @@ package xmss
 //@   ensures xmssInv(result) && idxOf(result.sk) == 0 && result.height == desc.height && result.hashFunction == desc.hashFunction && result.seed[0:48] == seed[0:48] && result.desc.hashFunction == desc.hashFunction && result.desc.signatureType == desc.signatureType && result.desc.height == desc.height && result.desc.addrFormatType == desc.addrFormatType
 
 //@ func XMSS.SetIndex
-//@   names x:*xmss.XMSS newIndex:uint32 |  | 
+//@   names x:*xmss.XMSS newIndex:uint32 |  |  | 
 //@   props C02 C08
 //@   requires xmssInv(x)
 //@   panics "index too high" when newIndex >= spec.pow2(x.height)
@@ -609,11 +609,11 @@ package xmss
 //@   assigns x.sk[0:4], bdsAll(x.bdsState)
 
 //@ func XMSS.GetIndex
-//@   names x:*xmss.XMSS |  | 
+//@   names x:*xmss.XMSS |  |  | 
 //@   inline
 
 //@ func XMSS.Sign
-//@   names x:*xmss.XMSS message:[]uint8 |  | index:uint32
+//@   names x:*xmss.XMSS message:[]uint8 |  | index:uint32 | 
 //@   props C02 C08 C01
 //@   requires xmssInv(x)
 //@   panics "index too high" when idxOf(x.sk) >= spec.pow2(x.height)
@@ -628,52 +628,52 @@ package xmss
 //@ pred sameKey(a, b) := a.sk[0:132] == b.sk[0:132] && a.height == b.height && a.hashFunction == b.hashFunction && a.seed[0:48] == b.seed[0:48] && a.desc.hashFunction == b.desc.hashFunction && a.desc.signatureType == b.desc.signatureType && a.desc.height == b.desc.height && a.desc.addrFormatType == b.desc.addrFormatType && bdsEq(a.bdsState, b.bdsState)
 
 //@ func NewXMSSFromSeed
-//@   names seed:[48]uint8 height:uint8 hashFunction:xmss.HashFunction addrFormatType:common.AddrFormatType |  | signatureType:common.SignatureType desc:*xmss.QRLDescriptor
+//@   names seed:[48]uint8 height:uint8 hashFunction:xmss.HashFunction addrFormatType:common.AddrFormatType |  | signatureType:common.SignatureType desc:*xmss.QRLDescriptor | 
 //@   inline
 //@ func NewXMSSFromExtendedSeed
-//@   names extendedSeed:[51]uint8 |  | desc:*xmss.QRLDescriptor seed:[48]uint8
+//@   names extendedSeed:[51]uint8 |  | desc:*xmss.QRLDescriptor seed:[48]uint8 | 
 //@   inline
 //@ func NewXMSSFromHeight
-//@   names height:uint8 hashFunction:xmss.HashFunction |  | seed:[48]uint8 _:int err:error
+//@   names height:uint8 hashFunction:xmss.HashFunction |  | seed:[48]uint8 _:int err:error | 
 //@   inline
 //@ func XMSS.GetSeed
-//@   names x:*xmss.XMSS |  | 
+//@   names x:*xmss.XMSS |  |  | 
 //@   inline
 
 //@ func XMSS.GetExtendedSeed
-//@   names x:*xmss.XMSS |  | extendedSeed:[51]uint8 descBytes:[3]uint8 seed:[48]uint8
+//@   names x:*xmss.XMSS |  | extendedSeed:[51]uint8 descBytes:[3]uint8 seed:[48]uint8 | 
 //@   props C09
 //@   ensures[C09] result[0] == (x.desc.signatureType % 16) * 16 + x.desc.hashFunction % 16 && result[1] == (x.desc.addrFormatType % 16) * 16 + (x.desc.height / 2) % 16 && result[2] == 0
 //@   ensures[C09] result[3:51] == x.seed[0:48]
 
 //@ func verifLemmaRecoverFromExtendedSeed
-//@   names seed:[48]uint8 height:uint8 hashFunction:xmss.HashFunction | a:*xmss.XMSS b:*xmss.XMSS | 
+//@   names seed:[48]uint8 height:uint8 hashFunction:xmss.HashFunction | a:*xmss.XMSS b:*xmss.XMSS |  | 
 //@   props C09
 //@   requires 4 <= height && height <= 30 && height % 2 == 0 && hashFunction < 16
 //@   ensures[C09] sameKey(a, b)
 
 //@ func verifLemmaRecoverFromMnemonic
-//@   names seed:[48]uint8 height:uint8 hashFunction:xmss.HashFunction | a:*xmss.XMSS b:*xmss.XMSS | 
+//@   names seed:[48]uint8 height:uint8 hashFunction:xmss.HashFunction | a:*xmss.XMSS b:*xmss.XMSS |  | 
 //@   props C09
 //@   requires 4 <= height && height <= 30 && height % 2 == 0 && hashFunction < 16
 //@   ensures[C09] sameKey(a, b)
 
 //@ func verifLemmaFreshKeyRegenerates
-//@   names height:uint8 hashFunction:xmss.HashFunction | a:*xmss.XMSS b:*xmss.XMSS | 
+//@   names height:uint8 hashFunction:xmss.HashFunction | a:*xmss.XMSS b:*xmss.XMSS |  | 
 //@   props C09
 //@   requires 4 <= height && height <= 30 && height % 2 == 0 && hashFunction < 16
 //@   panics "Failed to generate random seed for XMSS address"
 //@   ensures[C09] sameKey(a, b)
 
 //@ func XMSS.GetRoot
-//@   names x:*xmss.XMSS |  | 
+//@   names x:*xmss.XMSS |  |  | 
 //@   inline
 //@ func XMSS.GetPKSeed
-//@   names x:*xmss.XMSS |  | 
+//@   names x:*xmss.XMSS |  |  | 
 //@   inline
 
 //@ func XMSS.GetPK
-//@   names x:*xmss.XMSS |  | desc:[3]uint8 root:[]uint8 pubSeed:[]uint8 output:[67]uint8 offset:int i:int@1i i:int@2i i:int@3i
+//@   names x:*xmss.XMSS |  | desc:[3]uint8 root:[]uint8 pubSeed:[]uint8 output:[67]uint8 offset:int i:int@1i i:int@2i i:int@3i | ee597222 21d5094d 61c5ae54
 //@   props C09 C02
 //@   requires len(x.sk) == 132
 //@   ensures[C09,C02] result[0] == (x.desc.signatureType % 16) * 16 + x.desc.hashFunction % 16 && result[1] == (x.desc.addrFormatType % 16) * 16 + (x.desc.height / 2) % 16 && result[2] == 0
@@ -685,7 +685,7 @@ package xmss
 // ---- C08: path independence of the traversal state (lemma functions in zz_lemmas_verif.go) ----
 
 //@ func treeHashUpdate
-//@   names hashFunction:xmss.HashFunction treeHash:*xmss.TreeHashInst bdsState:*xmss.BDSState skSeed:[]uint8 params:*xmss.XMSSParams pubSeed:[]uint8 addr:*[8]uint32 |  | n:uint32 otsAddr:[8]uint32 lTreeAddr:[8]uint32 nodeAddr:[8]uint32 nodeBuffer:[]uint8 nodeHeight:uint32 srcOffset:uint32 destOffset:uint32
+//@   names hashFunction:xmss.HashFunction treeHash:*xmss.TreeHashInst bdsState:*xmss.BDSState skSeed:[]uint8 params:*xmss.XMSSParams pubSeed:[]uint8 addr:*[8]uint32 |  | n:uint32 otsAddr:[8]uint32 lTreeAddr:[8]uint32 nodeAddr:[8]uint32 nodeBuffer:[]uint8 nodeHeight:uint32 srcOffset:uint32 destOffset:uint32 | 39adbcaa
 //@   reads addr[0:3]
 //@   assigns *treeHash, bdsAll(bdsState)
 //@   trusted "BDS traversal internals: only named here so that the `reads addr[0:3]` clause of bdsTreeHashUpdate can be checked transitively"
@@ -694,7 +694,7 @@ package xmss
 // pure traversal calls is provably pairwise equal, but z3/cvc5 do not decide the resulting VCs within the time
 // limits (DESIGN.md, C08).  Kept for `govc func xmss.verifLemmaSignStepEqualsUpdateStep -p C08X`.
 //@ func verifLemmaSignStepEqualsUpdateStep
-//@   names hashFunction:xmss.HashFunction params:*xmss.XMSSParams skA:[]uint8 skB:[]uint8 bdsA:*xmss.BDSState bdsB:*xmss.BDSState message:[]uint8 |  | idx:uint32
+//@   names hashFunction:xmss.HashFunction params:*xmss.XMSSParams skA:[]uint8 skB:[]uint8 bdsA:*xmss.BDSState bdsB:*xmss.BDSState message:[]uint8 |  | idx:uint32 | 
 //@   props C08X
 //@   inlines xmss.xmssFastSignMessage xmss.xmssFastUpdate
 //@   unroll xmss.xmssFastUpdate 1 1
@@ -711,7 +711,7 @@ package xmss
 //@   assigns skA[0:4], skB[0:4], bdsAll(bdsA), bdsAll(bdsB)
 
 //@ func verifLemmaUpdateToCurrentIsIdentity
-//@   names hashFunction:xmss.HashFunction params:*xmss.XMSSParams sk:[]uint8 bds:*xmss.BDSState |  | idx:uint32
+//@   names hashFunction:xmss.HashFunction params:*xmss.XMSSParams sk:[]uint8 bds:*xmss.BDSState |  | idx:uint32 | 
 //@   props C08
 //@   inlines xmss.xmssFastUpdate
 //@   unroll xmss.xmssFastUpdate 1 0
@@ -727,7 +727,7 @@ package xmss
 //@ lemma xmss.L_wgenNode_cong[XF] uses xmss.L_chain_cong,-spec.chain : forall hf, PS:arr, A1:arr, A2:arr, SK1:arr, o1, SK2:arr, o2, w, i :: (forall w_ :: 0 <= w_ && w_ < 5 ==> A1[w_] == A2[w_]) && (forall d_ :: 0 <= d_ && d_ < 32 ==> SK1[o1+d_] == SK2[o2+d_]) ==> spec.wgenNode(hf, PS, A1, SK1, o1, w, i) == spec.wgenNode(hf, PS, A2, SK2, o2, w, i)
 //@ lemma xmss.L_wgenArr_cong[XF] uses xmss.L_wgenNode_cong,-spec.chain,-spec.wgenNode : forall hf, PS:arr, A1:arr, A2:arr, SK1:arr, o1, SK2:arr, o2, w, p :: (forall w_ :: 0 <= w_ && w_ < 5 ==> A1[w_] == A2[w_]) && (forall d_ :: 0 <= d_ && d_ < 32 ==> SK1[o1+d_] == SK2[o2+d_]) ==> spec.wgenArr(hf, PS, A1, SK1, o1, w)[p] == spec.wgenArr(hf, PS, A2, SK2, o2, w)[p]
 //@ func verifLemmaLeafFromSignature
-//@   names hashFunction:xmss.HashFunction msgHash:[]uint8 skSeed:[]uint8 pubSeed:[]uint8 xmssParams:*xmss.XMSSParams lTreeAddr:[8]uint32 otsAddr:[8]uint32 | leafV:[]uint8 leafG:[]uint8 | params:*xmss.WOTSParams otsSeed:[]uint8 a1:[8]uint32 sig:[]uint8 pk:[]uint8 a2:[8]uint32 l1:[8]uint32 l2:[8]uint32 a3:[8]uint32
+//@   names hashFunction:xmss.HashFunction msgHash:[]uint8 skSeed:[]uint8 pubSeed:[]uint8 xmssParams:*xmss.XMSSParams lTreeAddr:[8]uint32 otsAddr:[8]uint32 | leafV:[]uint8 leafG:[]uint8 | params:*xmss.WOTSParams otsSeed:[]uint8 a1:[8]uint32 sig:[]uint8 pk:[]uint8 a2:[8]uint32 l1:[8]uint32 l2:[8]uint32 a3:[8]uint32 | 
 //@   props C01
 //@   use xmss.L_wots_id
 //@   use xmss.L_wdig_range
@@ -756,7 +756,7 @@ package xmss
 // the public key recomputed from a signature of ANY message equals the generated public key (all three parameter sets).
 // The per-chain step is lemma L_wots_id (chain composition + congruence, both by induction).
 //@ func verifLemmaWotsSignThenRecover
-//@   names hashFunction:xmss.HashFunction msg:[]uint8 sk:[]uint8 pubSeed:[]uint8 params:*xmss.WOTSParams addr:[8]uint32 | pkFromSig:[]uint8 pkGen:[]uint8 | sig:[]uint8 a1:[8]uint32 a2:[8]uint32 a3:[8]uint32
+//@   names hashFunction:xmss.HashFunction msg:[]uint8 sk:[]uint8 pubSeed:[]uint8 params:*xmss.WOTSParams addr:[8]uint32 | pkFromSig:[]uint8 pkGen:[]uint8 | sig:[]uint8 a1:[8]uint32 a2:[8]uint32 a3:[8]uint32 | 
 //@   props C01
 //@   use xmss.L_wots_id
 //@   use xmss.L_wdig_range
@@ -774,31 +774,31 @@ package xmss
 //@   ensures[C01] hashFunction <= 2 ==> len(pkFromSig) == params.keySize && len(pkGen) == params.keySize && forall i_, q_ :: 0 <= i_ && i_ < params.len && 0 <= q_ && q_ < 32 ==> pkFromSig[32*i_+q_] == pkGen[32*i_+q_] && pkGen[32*i_+q_] == wgenN(hashFunction, pubSeed, arr(addr), sk, params, i_)[q_]
 
 //@ func XMSS.GetMnemonic
-//@   names x:*xmss.XMSS |  | 
+//@   names x:*xmss.XMSS |  |  | 
 //@   inline
 //@ func verifLemmaGetMnemonicIsEncoding
-//@   names x:*xmss.XMSS | m1:string m2:string | 
+//@   names x:*xmss.XMSS | m1:string m2:string |  | 
 //@   props C09
 //@   requires !isnil(x) && !isnil(x.desc)
 //@   ensures[C09] strof(m1) == strof(m2)
 
 //@ func XMSS.GetAddress
-//@   names x:*xmss.XMSS |  | 
+//@   names x:*xmss.XMSS |  |  | 
 //@   inline
 //@ func XMSS.GetLegacyAddress
-//@   names x:*xmss.XMSS |  | 
+//@   names x:*xmss.XMSS |  |  | 
 //@   inline
 //@ func XMSS.GetHeight
-//@   names x:*xmss.XMSS |  | 
+//@   names x:*xmss.XMSS |  |  | 
 //@   inline
 //@ func XMSS.GetSK
-//@   names x:*xmss.XMSS |  | 
+//@   names x:*xmss.XMSS |  |  | 
 //@   inline
 //@ func XMSS.GetHexSeed
-//@   names x:*xmss.XMSS |  | eSeed:[51]uint8
+//@   names x:*xmss.XMSS |  | eSeed:[51]uint8 | 
 //@   inline
 //@ func verifLemmaObjectGetters
-//@   names seed:[48]uint8 height:uint8 hashFunction:xmss.HashFunction | x:*xmss.XMSS a1:[20]uint8 a2:[20]uint8 l1:[39]uint8 l2:[39]uint8 okX:bool h:uint8 sk:[]uint8 hs1:string hs2:string | e:[51]uint8
+//@   names seed:[48]uint8 height:uint8 hashFunction:xmss.HashFunction | x:*xmss.XMSS a1:[20]uint8 a2:[20]uint8 l1:[39]uint8 l2:[39]uint8 okX:bool h:uint8 sk:[]uint8 hs1:string hs2:string | e:[51]uint8 | 
 //@   props C09
 //@   requires 4 <= height && height <= 30 && height % 2 == 0 && hashFunction < 16
 //@   ensures[C09] a1[0:20] == a2[0:20]
